@@ -684,6 +684,7 @@ def record_c02(rid, case, obs):
                R=[] if "mask" not in cap else [int(v) for v in cap["mask"].ravel().tolist()],
                lastq=l2(q18(cap["last"])) if "last" in cap else [0, 0], fmq=l2(fmq))
     rec["cmp"] = []
+    rec["fr"] = []
     if not obs["warned"] and "mask" in cap:
         if not set(rec["R"]) <= {0, 1}:
             rec["exc"] = "mask is not 0/1"
@@ -694,7 +695,10 @@ def record_c02(rid, case, obs):
             f = np.asarray(c.cell_averaged_joint_pdf(c.cell_center_coordinates), dtype=float)
         fm = float(c.fm)
         if f.shape == cap["P"].shape:
-            rec["cmp"] = [(1 if v > fm else (0 if v == fm else -1)) for v in f.ravel().tolist()]
+            flat = f.ravel()
+            rec["cmp"] = [(1 if v > fm else (0 if v == fm else -1)) for v in flat.tolist()]
+            # exact order embedding of the densities: rank among the distinct values
+            rec["fr"] = [int(v) for v in np.unique(flat, return_inverse=True)[1].ravel().tolist()]
     return rec
 
 
@@ -913,4 +917,93 @@ def integer_grid_cases(vc, rng, cfgs, n):
                alpha="mid")
     for al, dl in (("0.05", 1), ("0.1", [1, 1]), ("0.01", [1, 0.5]), ("0.2", [0.25, 1])):
         out.append(dict(kind="hdc", model=dnv, alpha=al, limits=[[0, 20], [0, 18]], deltas=dl, cfg=fix, np_seed=None))
+    return out
+
+
+def tie_cut_cases(vc, rng, n_bases, per_base=6):
+    """Symmetric marginals (Normal, von Mises) on grids centred at the mean with cell sizes that
+    are not powers of two: mirror cells have densities a few ulps apart whose products with the
+    cell sizes coincide.  The cell probabilities do not depend on alpha, so each base grid is
+    observed once and alpha is then placed so that the cut falls INSIDE such a pair (exactly one
+    of the two cells fits): the denser one has to be enclosed."""
+    from decimal import Decimal, getcontext
+    getcontext().prec = 60
+
+    def nrm(mu, sg):
+        return dict(family="Normal", cond=None, params=dict(mu=mu, sigma=sg))
+
+    def wbl(a, b):
+        return dict(family="Weibull", cond=None, params=dict(alpha=a, beta=b, gamma=0.0))
+
+    cfg = dict(dim=2, cond1="none", cond2="none", deltas="list", limits="explicit", aniso="1", grid="tiecut",
+               alpha="mid")
+    bases = [dict(kind="hdc", model=[nrm(0.0, 1.0), wbl(3.0, 1.2)], alpha="0.01", limits=[[-6.0, 6.0], [0.0, 15.0]],
+                  deltas=[1.0, 0.2], cfg=cfg, np_seed=None),
+             dict(kind="hdc", model=[nrm(0.0, 1.0), wbl(2.0, 1.5)], alpha="0.196", limits=[[-6.0, 6.0], [0.0, 15.0]],
+                  deltas=[1.0, 0.1], cfg=cfg, np_seed=None)]
+    while len(bases) < n_bases + 2:
+        k = len(bases)
+        d0 = [1.0, 0.5, 0.3, 0.7, 0.25][k % 5]
+        d1 = [0.2, 0.1, 0.3, 0.07, 0.6][(k // 2) % 5]
+        m = int(rng.integers(5, 10))
+        if k % 3 == 2:
+            mu = _u(rng, 2.0, 4.0, 1)
+            d0 = [0.3, 0.2, 0.35][k % 3]
+            first = dict(family="VonMises", cond=None, params=dict(kappa=_u(rng, 1.0, 4.0), mu=mu))
+            m = int(math.floor(3.1 / d0))
+        else:
+            mu = [0.0, 2.5, -1.0, 10.0][k % 4]
+            sg = _u(rng, 0.8, 2.0, 1)
+            first = nrm(mu, sg)
+            m = int(math.ceil(5 * sg / d0))
+        dims = [first]
+        if k % 4 == 3:
+            dims.append(dict(family="LogNormal", cond=0, fixed={}, dep=dict(mu=["pow", 0.8, 0.05, 1.0],
+                                                                            sigma=["pow", 0.3, 0.0, 1.0])))
+        else:
+            dims.append(wbl(_u(rng, 1.5, 3.0, 1), _u(rng, 1.1, 2.0, 1)))
+        limits = [[round(mu - m * d0, 6), round(mu + m * d0, 6)], [0.0, 15.0]]
+        deltas = [d0, d1]
+        if k % 5 == 4:   # 3-D: a second symmetric axis
+            dims.append(nrm(0.0, 1.5))
+            limits.append([-6.0, 6.0])
+            deltas = [d0, 0.6, 0.6]
+        bases.append(dict(kind="hdc", model=dims, alpha="0.05", limits=limits, deltas=deltas,
+                          cfg=dict(cfg, dim=len(dims)), np_seed=None))
+    out = []
+    for base in bases:
+        out.append(base)
+        obs = observe_contour(vc, base, want_pref=False, want_resort=False)
+        if obs["exc"] or "P" not in obs["cap"]:
+            continue
+        P = obs["cap"]["P"].ravel()
+        c = obs["contour"]
+        with warnings.catch_warnings():
+            warnings.simplefilter("ignore")
+            f = np.asarray(c.cell_averaged_joint_pdf(c.cell_center_coordinates), dtype=float).ravel()
+        if f.shape != P.shape:
+            continue
+        order = np.argsort(-P, kind="stable")
+        Ps, fs = P[order], f[order]
+        qs = [q18(v) for v in Ps.tolist()]
+        cum = 0
+        picked = []
+        i = 0
+        n = len(Ps)
+        while i < n:
+            j = i
+            while j + 1 < n and Ps[j + 1] == Ps[i]:
+                j += 1
+            if j == i + 1 and fs[i] != fs[j] and Ps[i] > 0:       # a pair with equal probability, different density
+                lq = cum + qs[i] + qs[i] // 2                       # room for exactly one of the two
+                aq = S18 - lq
+                if 10 ** 12 <= aq <= 3 * 10 ** 17:
+                    picked.append(aq)
+            cum += sum(qs[i:j + 1])
+            i = j + 1
+        for aq in [picked[t] for t in sorted(rng.choice(len(picked), size=min(per_base, len(picked)), replace=False))] if picked else []:
+            cse = dict(base)
+            cse["alpha"] = format(Decimal(int(aq)) / Decimal(S18), "f")
+            cse["cfg"] = dict(base["cfg"], tiecut="cut inside a pair of equal probability")
+            out.append(cse)
     return out
